@@ -1,29 +1,8 @@
 (* C09 *)
 
-(* tie to the source: the nullable expansion of the model is the function regenerated from cfg/utils_cfg.py on every build *)
-From Coq Require Import List.
-From PFL Require Import Base.ListSet Spec.Cfg Model.Cfg Gen.PyFun Proofs.GenTieC09.
-Theorem C09_nullable_sub_from_source : forall (Vr : Type) (E : EqDec Vr) (nul : list Vr) (body : list (symb Vr)),
-  py_remove_nullable_production_sub nul body = nullable_sub nul body.
-Proof. exact (@py_nullable_sub_eq). Qed.
-Print Assumptions C09_nullable_sub_from_source.
-
-(* ... remove_epsilon of the model is the source's remove_nullable_production mapped over the productions, and the normal-form
-   test on a production is the source's Production.is_normal_form (both regenerated from /repo on every build) *)
-From PFL Require Import Spec.Cfg.
-Theorem C09_remove_epsilon_from_source : forall (Vr : Type) (E : EqDec Vr) (G : cfg Vr),
-  g_prods (remove_epsilon G) = flat_map (py_remove_nullable_production (nullable_vars G)) (g_prods G).
-Proof. exact (@py_remove_epsilon_prods). Qed.
-Print Assumptions C09_remove_epsilon_from_source.
-
-Theorem C09_production_nf_from_source : forall (Vr : Type) (E : EqDec Vr) (p : Vr * list (symb Vr)),
-  py_production_is_normal_form (snd p) = prod_is_nf p.
-Proof. exact (@py_prod_is_nf_eq). Qed.
-Print Assumptions C09_production_nf_from_source.
-
 (* ---- the stages keep the language and produce the promised shape (all grammars, all words) ---- *)
-From Coq Require Import NArith.
-From PFL Require Import Base.Closure Proofs.CfgUseless Proofs.CfgEpsilon Proofs.CfgUnit Proofs.CfgDecompose Proofs.CfgNormalForm.
+From Coq Require Import List NArith.
+From PFL Require Import Base.ListSet Spec.Cfg Model.Cfg Base.Closure Proofs.CfgUseless Proofs.CfgEpsilon Proofs.CfgUnit Proofs.CfgDecompose Proofs.CfgNormalForm.
 
 Theorem C09_remove_useless_lang : forall (Vr : Type) (E : EqDec Vr) (G : cfg Vr) (w : list N),
   LangG (remove_useless G) w <-> LangG G w.
